@@ -201,14 +201,10 @@ impl MT104 {
                     creditor = parser.parse_optional_variant_field::<Field50Creditor>("50")?;
                 }
                 _ => {
-                    // Unknown variant, try both
-                    if let Ok(ip) =
-                        parser.parse_optional_variant_field::<Field50InstructingParty>("50")
-                    {
-                        instructing_party = ip;
-                    } else {
-                        creditor = parser.parse_optional_variant_field::<Field50Creditor>("50")?;
-                    }
+                    // Any other option is not allowed for field 50 here: report it
+                    // (the parser rejects a value that does not belong to the option read)
+                    instructing_party =
+                        parser.parse_optional_variant_field::<Field50InstructingParty>("50")?;
                 }
             }
         }
@@ -249,15 +245,9 @@ impl MT104 {
                             parser.parse_optional_variant_field::<Field50Creditor>("50")?;
                     }
                     _ => {
-                        // Unknown variant, try both
-                        if let Ok(ip) =
-                            parser.parse_optional_variant_field::<Field50InstructingParty>("50")
-                        {
-                            instructing_party_tx = ip;
-                        } else {
-                            creditor_tx =
-                                parser.parse_optional_variant_field::<Field50Creditor>("50")?;
-                        }
+                        // Any other option is not allowed for field 50 here: report it
+                        instructing_party_tx =
+                            parser.parse_optional_variant_field::<Field50InstructingParty>("50")?;
                     }
                 }
             }
